@@ -17,7 +17,7 @@ RULE = ('(a) relations u(state, out\') from a formula menu over inputs of all '
         'table. (b) dumps_bdd_as_code: ALL 256 functions of 3 bits as roots '
         '(single, in pairs sharing nodes, with complemented edges on both '
         'back ends), Python text executed on all 8 inputs, C text '
-        'token-mapped to Python and executed likewise, and compiled with g++ (latches declared from the text, out_bits a small map type) and run on all 8 inputs. evaluations = '
+        'compiled with g++ (fallback without a compiler: token-mapped to Python) (latches declared from the text, out_bits a small map type) and run on all 8 inputs. evaluations = '
         'program executions; non-trivial = relation not functional or root '
         'not constant; distinct = (relation/root, outputs, back end)')
 ASSUMPTIONS = ['dd trusted', 'C output is a fragment (no declarations): it '
@@ -318,18 +318,21 @@ def run_roots(case, acc):
                            if bdd.let(dict(zip(bits, r)), w) == bdd.true}
         for lang in ('python', 'c'):
             code = cg.dumps_bdd_as_code(roots, bdd, lang=lang)
-            pycode = code if lang == 'python' else _c_to_python(code)
+            pycode = code
             if lang == 'c':
                 n += 1
                 c_fragments.append((roots, masks, code))
-                if not _have_cxx():
-                    # without a compiler: at least the statement grammar
-                    why = _c_statements_malformed(code)
-                    if why:
-                        acc.ev(n=n)
-                        acc.violation('emitted_c_code_malformed', case,
-                                      detail=dict(why=why, code=code[:800]))
-                        return
+                if _have_cxx():
+                    continue      # compiled and run below: the real oracle
+                # without a compiler, a fallback for the layout the pinned
+                # tree emits: statement grammar, then a token mapping
+                why = _c_statements_malformed(code)
+                if why:
+                    acc.ev(n=n)
+                    acc.violation('emitted_c_code_malformed', case,
+                                  detail=dict(why=why, code=code[:800]))
+                    return
+                pycode = _c_to_python(code)
             for r in space:
                 n += 1
                 ns = dict(zip(bits, r))
